@@ -2,7 +2,9 @@ package main
 
 import (
 	"fmt"
+	"go/token"
 	"go/types"
+	"sort"
 	"strings"
 
 	"golang.org/x/tools/go/ssa"
@@ -20,6 +22,7 @@ func init() {
 			{ID: "C18.R1", Text: "Higher = lexicographic >, Equal = component-wise =, Lower = lexicographic < on (Major, Minor, Patch, Build) — 81 relation vectors, exhaustive for all ints", Run: c18r1},
 			{ID: "C18.R2", Text: "gates: expiry opcode ⇔ ≥ 6.5.0.0; change streams ⇔ magma ∧ ≥ 7.2.0.0; serial close ⇔ < 5.5.0.0; constants are those tuples", Run: c18r2},
 			{ID: "C18.R3", Text: "parser table: Major ← Atoi(dot[0]), Minor ← Atoi(dot[1]), Patch ← Atoi(dash(dot[2])[0]), Build ← Atoi(dash(dash(dot[2])[1])[0]); each under exactly its existence conditions; errors returned except the build's", Run: c18r3},
+			{ID: "C18.R4", Text: "the version the gates are evaluated on is the parser's result for the string the server reported: every non-nil version GetVersion returns is nodeVersionFromString(/pools implementationVersion) under that call's err == nil (no invented fallback version), and newDcp's gates use GetVersion's result", Run: c18r4},
 		},
 	})
 }
@@ -320,4 +323,116 @@ func c18r3(c *Ctx, id string) {
 		}
 		c.Check(okErr, id, "error:"+which, in.Pos(), "a non-numeric "+which+" is an error", "a non-numeric "+which+" is silently accepted")
 	})
+}
+
+func c18r4(c *Ctx, id string) {
+	w := c.W
+	impls := w.implsOf("couchbase", "HTTPClient", "GetVersion")
+	c.need(len(impls) > 0, id, "an implementation of couchbase.HTTPClient.GetVersion")
+	parser := w.Func("couchbase", "nodeVersionFromString")
+	c.need(parser != nil, id, "couchbase.nodeVersionFromString")
+	for _, fn := range impls {
+		c.see(fn)
+		n := 0
+		allInstrs(fn, func(in ssa.Instruction) {
+			r, ok := in.(*ssa.Return)
+			if !ok || len(r.Results) != 2 {
+				return
+			}
+			// named/defer-spilled results: look at the stores feeding the returned cell in this block
+			val := r.Results[0]
+			if ld, ok := val.(*ssa.UnOp); ok && ld.Op == token.MUL {
+				if st := singleStoreIn(in.Block(), ld.X); st != nil {
+					val = st
+				} else {
+					return // the join block of spilled returns; each predecessor is judged at its own stores
+				}
+			}
+			n++
+			o := w.Origin(val)
+			construct := fmt.Sprintf("return#%d@%s", n, fname(fn))
+			if o == "const(nil)" {
+				c.OK(id, construct, in.Pos(), "no version (error path)")
+				return
+			}
+			call, _ := unwrap(val).(*ssa.Extract)
+			okSrc := false
+			var pc *ssa.Call
+			if call != nil && call.Index == 0 {
+				if cl, ok := call.Tuple.(*ssa.Call); ok && cl.Common().StaticCallee() == parser {
+					pc = cl
+					okSrc = strings.HasSuffix(w.Origin(cl.Common().Args[0]), ".ImplementationVersion")
+				}
+			}
+			okErr := pc != nil && errGuard(in.Block(), true, func(v ssa.Value) bool {
+				ex, ok := v.(*ssa.Extract)
+				return ok && ex.Index == 1 && ex.Tuple == ssa.Value(pc)
+			})
+			c.Check(okSrc && okErr, id, construct, in.Pos(), "returns the parser's result for the reported implementationVersion, under the parser's err == nil",
+				fmt.Sprintf("returns the version %s: not the parse of the server's implementationVersion under its success test (from the parser on that string: %v, under err == nil: %v) — the feature gates would be evaluated on an invented version", o, okSrc, okErr))
+		})
+		if n == 0 {
+			c.Undecided(id, "returns@"+fname(fn), fn.Pos(), "no return of GetVersion could be resolved")
+		}
+	}
+	// newDcp evaluates the gates on that result
+	nd := w.Func("", "newDcp")
+	if nd == nil {
+		c.Undecided(id, "gate-input", 0, "dcp.newDcp not found")
+		return
+	}
+	c.see(nd)
+	n := 0
+	var unit []*ssa.Function
+	for f := range w.syncCallees(nd, 1, false) {
+		if f.Pkg == nd.Pkg {
+			unit = append(unit, f)
+		}
+	}
+	sort.Slice(unit, func(i, j int) bool { return fname(unit[i]) < fname(unit[j]) })
+	each := func(visit func(ssa.Instruction)) {
+		for _, f := range unit {
+			allInstrs(f, visit)
+		}
+	}
+	each(func(in ssa.Instruction) {
+		cc := callOf(in)
+		if cc == nil || cc.StaticCallee() == nil || cc.StaticCallee().Signature.Recv() == nil {
+			return
+		}
+		name := cc.StaticCallee().Name()
+		if recvTypeName(cc.StaticCallee().Signature.Recv().Type()) != "Version" || (name != "Higher" && name != "Equal" && name != "Lower") {
+			return
+		}
+		n++
+		o := w.Origin(cc.Args[0])
+		if p, isP := unwrap(cc.Args[0]).(*ssa.Parameter); isP {
+			// gates moved into a helper: judged at the helper's call sites
+			all := true
+			cs := w.callersOf(in.Parent())
+			for _, s := range cs {
+				if !strings.HasSuffix(w.Origin(argOfParam(s.Call.Common(), in.Parent(), p)), ".GetVersion)()#0") {
+					all = false
+				}
+			}
+			if all && len(cs) > 0 {
+				o = "….GetVersion)()#0"
+			}
+		}
+		c.Check(strings.HasSuffix(o, ".GetVersion)()#0"), id, fmt.Sprintf("gate-input#%d", n), in.Pos(), "compared version is GetVersion()'s result", "a gate compares "+o+" instead of the server version obtained from GetVersion")
+	})
+	if n < 2 {
+		c.Undecided(id, "gate-input", nd.Pos(), "only %d version comparisons found in newDcp and its helpers (4 on the reference tree)", n)
+	}
+}
+
+// singleStoreIn: the value stored to addr by the last store in block b (nil if none).
+func singleStoreIn(b *ssa.BasicBlock, addr ssa.Value) ssa.Value {
+	var v ssa.Value
+	for _, in := range b.Instrs {
+		if st, ok := in.(*ssa.Store); ok && st.Addr == addr {
+			v = st.Val
+		}
+	}
+	return v
 }
